@@ -36,6 +36,7 @@ def ops : PointOps (ZMod 7) where
   scale A := .ok A
   containsPoint x y := decide ((y * y - (x ^ 3 + 2 * x + 1)) % 5 = 0)
   mkPoint x y := mk x y
+  fromAffine A := A
 
 /-- square roots modulo 5 by table -/
 def sqrt (a _p : ℤ) : Res ℤ := if a = 0 then .ok 0 else if a = 1 then .ok 1 else if a = 4 then .ok 2 else .error .squareRoot
@@ -52,7 +53,7 @@ theorem base : PointOpsCorrect ops (1 : ZMod 7) id xc (fun _ => True) where
     revert R
     decide
   mulG k := ⟨(k : ZMod 7), rfl, trivial, by simp⟩
-  mulAddG u1 Q u2 _ := ⟨_, rfl, trivial, by simp⟩
+  mulAddG _ u1 Q u2 _ := ⟨_, rfl, trivial, by simp⟩
   mul k Q _ := ⟨_, rfl, trivial, by simp⟩
   add A B _ _ := ⟨_, rfl, trivial, rfl⟩
   isInf A _ := by simp [ops]
@@ -60,6 +61,7 @@ theorem base : PointOpsCorrect ops (1 : ZMod 7) id xc (fun _ => True) where
   yOf A _ h := by
     refine ⟨yval A, by simp [ops, show A ≠ 0 from h], ?_, ?_⟩ <;> (revert A; decide)
   scale A _ := ⟨A, rfl, trivial, rfl⟩
+  fromAffine A _ := ⟨trivial, rfl⟩
 
 theorem correct : RecoverOpsCorrect ops (1 : ZMod 7) id xc (fun _ => True) where
   toPointOpsCorrect := base
